@@ -457,26 +457,38 @@ Proof.
   destruct (Nat.leb 64 d) eqn:E; [apply Nat.leb_le in E | apply Nat.leb_gt in E]; repeat split; intros H; try discriminate; try lia; reflexivity.
 Qed.
 
-(* the recursion of the guarded walk over a tree of containers never exceeds the limit: model of the walk *)
-Inductive tree := Node (children : list tree).
-Fixpoint walk_depth (fuel : nat) (d : nat) (t : tree) : nat :=
-  match fuel with
-  | O => d
-  | S f => match t with
-           | Node cs => match codegen_enter d with
-                        | SOk d' => fold_right Nat.max d' (map (walk_depth f d') cs)
-                        | _ => d
-                        end
-           end
-  end.
-Lemma walk_depth_bounded fuel : forall d t, (d <= 64)%nat -> (walk_depth fuel d t <= 64)%nat.
+(* the guarded walk over ANY tree of containers (any depth, any branching, any fuel): never deeper than 64 levels, at
+   most 65536 containers entered in a pass, at most one diagnostic *)
+Lemma budget_now : container_budget = Some 65536.
+Proof. reflexivity. Qed.
+
+Definition ginv (st : gstate) : Prop :=
+  0 <= g_entered st <= 65536 /\ (g_max_depth st <= 64)%nat /\ (g_reported st <= 1)%nat /\ (g_reported st = 1%nat -> g_exhausted st = true).
+
+Lemma walk_inv fuel : forall d t st, (d <= 64)%nat -> ginv st -> ginv (walk fuel d t st).
 Proof.
-  induction fuel as [|f IH]; intros d t H; cbn [walk_depth]; [exact H|].
-  destruct t as [cs]. destruct (guard_enter_spec d) as (A & B & _).
-  destruct (Nat.lt_ge_cases d 64) as [L|G].
-  - pose proof L as L'. apply A in L'. rewrite L'. induction cs as [|c r IHr]; cbn [map fold_right]; [lia|].
-    apply Nat.max_lub; [apply IH; lia | exact IHr].
-  - apply B in G. rewrite G. exact H.
+  destruct guards_now as (_ & N & _). pose proof budget_now as B.
+  induction fuel as [|f IH]; intros d t st Hd I; cbn [walk]; [exact I|].
+  destruct t as [cs]. rewrite B. destruct (g_exhausted st) eqn:EX; cbn [andb]; [exact I|].
+  unfold over_depth, over_budget. rewrite N, B.
+  destruct I as (I1 & I2 & I3 & I4).
+  destruct (Nat.leb 64 d || (65536 <=? g_entered st)) eqn:O.
+  - unfold ginv. cbn [g_entered g_exhausted g_max_depth g_reported]. repeat split; try lia.
+    + destruct (g_reported st) as [|[|k]]; try lia. specialize (I4 eq_refl). congruence.
+  - apply orb_false_iff in O as [O1 O2]. apply Nat.leb_gt in O1.
+    assert (I' : ginv (mkG (g_entered st + 1) false (Nat.max (g_max_depth st) (S d)) (g_reported st))).
+    { unfold ginv. cbn [g_entered g_exhausted g_max_depth g_reported]. repeat split; try lia.
+      intros R. specialize (I4 R). congruence. }
+    rewrite EX in *. revert I'. generalize (mkG (g_entered st + 1) false (Nat.max (g_max_depth st) (S d)) (g_reported st)).
+    induction cs as [|c r IHr]; intros st0 I0; cbn [fold_left]; [exact I0|].
+    apply IHr. apply IH; [lia|exact I0].
+Qed.
+
+Lemma walk_pass_bounded fuel t :
+  0 <= g_entered (walk_pass fuel t) <= 65536 /\ (g_max_depth (walk_pass fuel t) <= 64)%nat /\ (g_reported (walk_pass fuel t) <= 1)%nat.
+Proof.
+  assert (I : ginv (mkG 0 false 0 0)) by (unfold ginv; cbn; repeat split; try lia; discriminate).
+  destruct (walk_inv fuel 0 t _ ltac:(lia) I) as (A & B & C & _). unfold walk_pass. auto.
 Qed.
 
 (* the failing parse of n nested parentheses / argument lists is attempted once, not 2^n times *)
